@@ -116,7 +116,7 @@ theorem distance_reported (Lx Ly Lz : Nat) (hx : 2 ≤ Lx) (hy : 2 ≤ Ly) (hz :
     `C01XCubeCode.deformation_rule`) -/
 theorem deformation_defined (Lx Ly Lz : Nat) (axis : String)
     (ha : axis = "x" ∨ axis = "y" ∨ axis = "z") (q : Coord)
-    (hq : q ∈ (lattice Lx Ly Lz).qubits) : ∃ m, getDeformation "XZZX" axis q = some m := by
+    (hq : q ∈ (lattice Lx Ly Lz).qubits) : ∃ m, getDeformation "XZZX" (some axis) q = some m := by
   obtain ⟨x, y, z, rfl⟩ := mem_qubits_shape Lx Ly Lz q hq
   rw [C01XCubeCode.deformation_rule, C01XCubeCode.qubit_axis_rule Lx Ly Lz x y z hq]
   have h1 : ¬ (axis ≠ "x" ∧ axis ≠ "y" ∧ axis ≠ "z") := by
@@ -130,7 +130,7 @@ theorem deformation_defined (Lx Ly Lz : Nat) (axis : String)
     rows, they form a valid `[[n, k]]` code, `code.d` reports `min Lx (min Ly Lz)`, and that is the
     true distance of the deformed code -/
 theorem distance_deformed (Lx Ly Lz : Nat) (hx : 2 ≤ Lx) (hy : 2 ≤ Ly) (hz : 2 ≤ Lz)
-    (name axis : String) (D : Coord → PauliMap)
+    (name : String) (axis : Option String) (D : Coord → PauliMap)
     (hD : ∀ q ∈ (lattice Lx Ly Lz).qubits, getDeformation name axis q = some (D q)) :
     stabilizerMatrix ((lattice Lx Ly Lz).toCodeData.deform D) =
         some ((lattice Lx Ly Lz).rowsH.map (deformBsf ((lattice Lx Ly Lz).qubits.map D))) ∧
@@ -155,7 +155,7 @@ theorem distance_deformed (Lx Ly Lz : Nat) (hx : 2 ≤ Lx) (hy : 2 ≤ Ly) (hz :
 
 /-- the relabelling `get_deformation(·, name, axis)` as a function of the location (identity
     where it raises — nowhere on the qubits for the offered name and axes) -/
-def deformationOf (name axis : String) (q : Coord) : PauliMap :=
+def deformationOf (name : String) (axis : Option String) (q : Coord) : PauliMap :=
   (getDeformation name axis q).getD PauliMap.id
 
 /-- the XZZX-deformed code along every axis has distance `min Lx (min Ly Lz)` — every size -/
@@ -163,8 +163,8 @@ theorem distance_deformed_offered (Lx Ly Lz : Nat) (hx : 2 ≤ Lx) (hy : 2 ≤ L
     (axis : String) (ha : axis = "x" ∨ axis = "y" ∨ axis = "z") :
     IsDistance (3 * (Lx * Ly * Lz))
       ((lattice Lx Ly Lz).rowsH.map (deformBsf ((lattice Lx Ly Lz).qubits.map
-        (deformationOf "XZZX" axis)))) (min Lx (min Ly Lz)) :=
-  (distance_deformed Lx Ly Lz hx hy hz "XZZX" axis (deformationOf "XZZX" axis)
+        (deformationOf "XZZX" (some axis))))) (min Lx (min Ly Lz)) :=
+  (distance_deformed Lx Ly Lz hx hy hz "XZZX" (some axis) (deformationOf "XZZX" (some axis))
     (fun q hq => by
       obtain ⟨m, hm⟩ := deformation_defined Lx Ly Lz axis ha q hq
       unfold deformationOf
@@ -187,8 +187,10 @@ example : ((lattice 2 3 4).rowsZ.map pauliWeight) = [2, 2, 2, 4, 4, 4, 3, 3, 6, 
   decide +kernel
 /-- the XZZX code on the `3 × 4 × 5` lattice along 'z' has distance 3 -/
 example : IsDistance 180 ((lattice 3 4 5).rowsH.map
-    (deformBsf ((lattice 3 4 5).qubits.map (deformationOf "XZZX" "z")))) 3 :=
+    (deformBsf ((lattice 3 4 5).qubits.map (deformationOf "XZZX" (some "z"))))) 3 :=
   distance_deformed_offered 3 4 5 (by decide) (by decide) (by decide) "z" (by decide)
-example : deformationOf "XZZX" "z" [0, 0, 1] = PauliMap.swapXZ := by decide +kernel
+example : deformationOf "XZZX" (some "z") [0, 0, 1] = PauliMap.swapXZ := by decide +kernel
+/-- `code.deform('XZZX')` without an axis is the deformation along 'z' -/
+example : deformationOf "XZZX" none = deformationOf "XZZX" (some "z") := rfl
 
 end Panqec.C17XCubeCode
